@@ -15,13 +15,28 @@ EXTENDS Integers, FiniteSets
 
 VARIABLE v  \* [live: set of accepted fds not yet closed, inHandler: set of fds, called, ret, liveAtCall, acceptAfterCall]
 
-InitVal == [live |-> {}, inHandler |-> {}, called |-> FALSE, ret |-> "", liveAtCall |-> {}, acceptAfterCall |-> FALSE, busyAtCall |-> FALSE]
+InitVal == [live |-> {}, inHandler |-> {}, called |-> FALSE, ret |-> "", liveAtCall |-> {}, acceptAfterCall |-> FALSE, busyAtCall |-> FALSE,
+            closedEarly |-> {},   \* accepted descriptors whose connection was closed before the server had started to track it
+            pushFd |-> -1,
+            opening |-> {},
+            busyAtSweep |-> {}]   \* connections that were busy when the current sweep of Shutdown began       \* descriptors returned by accept whose connection the server has not started to track yet        \* the connection a server-side sender (outside any handler) is writing to
 
-AcceptEff(fd) == [v EXCEPT !.live = @ \cup {fd}, !.acceptAfterCall = (@ \/ v.called)]
+\* a connection that was closed (by its own poller) before the server stored it never becomes a live tracked connection:
+\* the server drops it again at once
+OpenEff(fd) == [v EXCEPT !.closedEarly = @ \ {fd}, !.opening = @ \cup {fd}, !.acceptAfterCall = (@ \/ v.called)]
+
+AcceptEff(fd) == IF fd \in v.closedEarly THEN [v EXCEPT !.closedEarly = @ \ {fd}, !.opening = @ \ {fd}]
+                 ELSE [v EXCEPT !.live = @ \cup {fd}, !.opening = @ \ {fd}, !.acceptAfterCall = (@ \/ v.called)]
+\* Shutdown decides per sweep: a connection that was busy when the sweep began and still is when Shutdown closes it was not idle at
+\* any moment in between (one that became busy after Shutdown had looked at it is the unavoidable check-then-close race)
+SweepEff == [v EXCEPT !.busyAtSweep = v.inHandler]
+\* a connection that the server starts to track after Shutdown has returned nil was alive (accepted, not closed) when it returned
+AcceptViol(fd) == IF v.ret = "nil" /\ fd \notin v.closedEarly THEN {"C13.shutdown_returned_nil_with_live_connections"} ELSE {}
 ClosedViol(fd, by) ==
-    IF by = "shutdown" /\ fd \in v.inHandler THEN {"C13.shutdown_closed_a_busy_connection"} ELSE {}
-ClosedEff(fd) == [v EXCEPT !.live = @ \ {fd}, !.inHandler = @ \ {fd}]
-CallEff == [v EXCEPT !.called = TRUE, !.liveAtCall = v.live, !.busyAtCall = (v.inHandler # {})]
+    IF by = "shutdown" /\ fd \in v.inHandler /\ fd \in v.busyAtSweep THEN {"C13.shutdown_closed_a_busy_connection"} ELSE {}
+ClosedEff(fd) == [v EXCEPT !.live = @ \ {fd}, !.inHandler = @ \ {fd}, !.busyAtSweep = @ \ {fd}, !.closedEarly = IF fd \in v.live THEN @ ELSE @ \cup {fd}]
+\* (an accept in progress when Shutdown is called is something Shutdown has to wait for)
+CallEff == [v EXCEPT !.called = TRUE, !.liveAtCall = v.live \cup v.opening, !.busyAtCall = (v.inHandler # {})]
 RetViol(err) ==
     (IF err = "nil" /\ v.live # {} THEN {"C13.shutdown_returned_nil_with_live_connections"} ELSE {})
     \* nothing was alive when Shutdown was called and nothing was accepted afterwards: the first sweep finds nothing to wait for
